@@ -6,7 +6,7 @@ def buildLockArg : String := "BuildLockFile"
 def prepareDirectoriesArgs : List String := ["TmpDir:true", "OutDir:false"]
 def moveOutputCalls : List String := ["Hash", "PathExists", "Equal", "RemoveAll", "MoveHash", "Rename", "RecursiveCopy"]
 def moveOutputRename : String := "os.Rename(param2, param3)"
-def moveOutputKeepCond : String := "bytes.Equal(local, local)"
+def moveOutputKeepCond : String := "bytes.Equal(hashOf(param3), hashOf(param2))"
 def targetLockFlag : String := "syscall.LOCK_EX"
 def repoSharedFlag : String := "syscall.LOCK_SH"
 def repoExclusiveFlag : String := "syscall.LOCK_EX"
